@@ -119,6 +119,16 @@ def rule_sorts(ctx):
                 if c[0] == "arm" and c[2].startswith("Sort::"):
                     got[c[2]] = item[1][4:]
     ctx.add("TAB-SIB", "binder-types", got == TYPE, ctx.site(b), "binder types per sort: %s (reference %s)" % (got, TYPE), construct=got)
+    # every variable of the quantification gets a binder: the binder writes sit in one loop over the whole variable list
+    from .. import leaves
+    root = ("place", "self.0.variables")
+    bw = [(loops, item) for conds, loops, item in p.out if item[0] == "write" and item[1].startswith("{}: ")]
+    ok = bool(bw)
+    for loops, item in bw:
+        ok = ok and leaves.over_all(loops, root, item[2]) == (("ctor", "Format", (("0", ("each", root)),)),)
+    ctx.add("TAB-MAP", "binder-every-variable", ok, ctx.site(b),
+            "the binder list is written by one loop over all of `variables` (no filter / dedup / skip: two variables of one name and different sorts are two binders): %s"
+            % sorted({str(l)[:160] for l, _ in bw}))
     lits = [item[1] for _, _, item in p.out if item[0] == "write"]
     ctx.add("TAB-MAP", "binder-syntax", lits[0] == "{}[" and lits[-1] == "]" and ", " in lits, ctx.site(b), "quantifier syntax Q[v: t, ...] : pieces %s" % lits)
     # declarations in Display for Problem
